@@ -9,3 +9,35 @@ pub fn f20_bad_lookahead(s: &str) -> usize {
     }
     n
 }
+
+/// control F24: the inner loop advances the byte cursor by the width of the run's FIRST character
+pub fn f24_bad_width(s: &str) -> Vec<&str> {
+    let mut rv = vec![];
+    let mut iter = s.char_indices().peekable();
+    while let Some((start, c)) = iter.next() {
+        let width = c.len_utf8();
+        let mut end = start + width;
+        while let Some(&(_, next_char)) = iter.peek() {
+            if next_char.is_whitespace() != c.is_whitespace() {
+                break;
+            }
+            iter.next();
+            end += width;
+        }
+        rv.push(&s[start..end]);
+    }
+    rv
+}
+
+/// control F26: pieces are pushed with a running offset that the pushing loop never advances
+pub fn f26_bad_offsets<'a>(words: &[&'a str]) -> Vec<(&'a str, usize, usize)> {
+    let mut seqs = Vec::new();
+    let mut offset = 0;
+    for (idx, word) in words.iter().enumerate() {
+        for piece in word.split('-') {
+            seqs.push((piece, idx, offset));
+        }
+        offset += word.len();
+    }
+    seqs
+}
